@@ -53,7 +53,11 @@ func (e *SeqArrowExpr) Eval(ctx context.Context, local Scope) (_ Value, err erro
 			if err != nil {
 				return nil, WrapContextErr(err, e, local)
 			}
-			return SetCall(ctx, s.(Set), v)
+			f, is := s.(Set)
+			if !is {
+				return nil, WrapContextErr(fmt.Errorf("%s rhs must be a function of two arguments", e.op), e, local)
+			}
+			return SetCall(ctx, f, v)
 		}
 	} else {
 		call = func(_, v Value) (Value, error) {
